@@ -284,13 +284,32 @@ func (sub *Printer) chainInto(n *Node) int {
 // call argument).  An else-less chain there is ambiguous with the list's own
 // commas, so it is always parenthesised.
 func (p *Printer) elem(n *Node) {
-	if n.K == "chain" {
+	if endsInChain(n) {
 		p.w("(")
 		p.raw(n)
 		p.w(")")
 		return
 	}
 	p.node(n, lvAssign)
+}
+
+// endsInChain: the element is an else-less chain or an assignment whose right-hand side is one
+// (`[x = c ? 1, d ? 2, 3]` would give the chain the list's next element).
+func endsInChain(n *Node) bool {
+	for n != nil {
+		switch n.K {
+		case "chain":
+			return true
+		case "set", "setc", "setca", "setthis", "setattr", "setidx", "setslice":
+			if len(n.Kids) == 0 {
+				return false
+			}
+			n = n.Kids[len(n.Kids)-1]
+		default:
+			return false
+		}
+	}
+	return false
 }
 
 func (p *Printer) args(args []*Node) {
